@@ -26,7 +26,7 @@ func TestC11(t *testing.T) {
 				sp := lab.StorePlan{
 					Class:  rapid.SampledFrom([]int{lab.ClassNotStarted, lab.ClassTerminal, lab.ClassRunning, lab.ClassRunning, lab.ClassRunning}).Draw(t, "class"),
 					Prefix: rapid.IntRange(0, 1000).Draw(t, "prefix"),
-					Age:    rapid.IntRange(0, 3).Draw(t, "age"),
+					Age:    rapid.IntRange(0, 4).Draw(t, "age"),
 				}
 				c.Plans = append(c.Plans, sp)
 			}
@@ -41,7 +41,9 @@ func TestC11(t *testing.T) {
 				classes[p.Class] = true
 				if p.Class == lab.ClassRunning {
 					running = true
-					if p.Age >= 2 {
+					if p.Age == lab.AgePlanRowOnly {
+						res.Label("running-plan-old-start-fresh-activity")
+					} else if p.Age >= 2 {
 						res.Label("stale-running-plan")
 					} else {
 						res.Label("live-running-plan")
